@@ -28,7 +28,8 @@ def workloads(rnd, tier):
     rows = [{"a": i % 4, "s": rnd.choice(["x", "y", "z"]), "k": i, "items": [{"x": j} for j in range(i % 3)],
              "o": {"p%d" % j: j for j in range(1 + i % 4)}} for i in range(8)]
     other = [{"m": i % 3, "b": rnd.choice(["p", "q"])} for i in range(6)]
-    doc = {"t": rows, "u": other, "meta": [{"v": 1}, {"v": 2}], "w": [{"k": i, "a": i % 5, "s": "x"} for i in range(44)]}
+    doc = {"t": rows, "u": other, "meta": [{"v": 1}, {"v": 2}], "w": [{"k": i, "a": i % 5, "s": "x"} for i in range(44)],
+           "wp": [{"k": i, "s": "x"} for i in range(136)], "wn": [{"k": i} for i in range(72)]}
     queries = [
         "SELECT a, s FROM t WHERE a >= 1 ORDER BY k DESC",
         "SELECT * FROM t x JOIN u y ON x.a = y.m",
@@ -70,7 +71,12 @@ def workloads(rnd, tier):
     wide = ["SELECT * FROM w x PARALLEL JOIN w y ON x.k < y.k AND x.a = y.a",
             "SELECT * FROM w x PARALLEL HASH_JOIN w y ON x.k = y.k",
             "SELECT * FROM w x PARALLEL JOIN w y ON x.k >= y.k AND x.s",
-            "SELECT * FROM w x PARALLEL LEFT JOIN w y ON x.k = y.k AND x.s + 1 > 0"]
+            "SELECT * FROM w x PARALLEL LEFT JOIN w y ON x.k = y.k AND x.s + 1 > 0",
+            # ... over more keys than any plausible bound on workers or tasks (136), every task PANICKING (a built-in over an
+            # absent column) or failing; and a PARALLEL join whose ON itself runs a PARALLEL join (72 keys, each task starts one)
+            "SELECT * FROM wp x PARALLEL JOIN wp y ON x.k < y.k AND IF(x.flag, TRUE, FALSE)",
+            "SELECT * FROM wp x PARALLEL LEFT JOIN wp y ON x.k <> y.k AND x.s",
+            "SELECT * FROM wn x PARALLEL JOIN wn y ON x.k < y.k AND EXISTS (SELECT * FROM `<-meta` c PARALLEL JOIN `<-meta` d ON c.v < d.v)"]
     selectors = ["t[%d:0].a" if False else "t.a", "t[each].items", "u[(0:2)].m", "k%d", "t{k%d|string}" if False else "meta.v",
                  "'k%d'.x", "t[0].k%d"]
     g = 4 if tier == "quick" else 16
